@@ -6,6 +6,7 @@ impl   : annet.annlib.jsontools.{apply_json_fragment, make_patch, apply_patch, a
 model  : Annet.Json.* (lean/AnnetModel/Model/Json.lean) through Glue/C13.lean
 oracle : the laws of the property evaluated on the real result only, with an independent pointer/glob
          reading (strings are scalars; `fnmatch` is the only shared library):
+           resolve    _resolve_json_pointers(p, d) == the pointers of d selected by p, in document order
            inside     for every acl pattern p:  {q -> r[q] | q in r matches p} == {q -> f[q] | q in f matches p}
            outside    every path of old / r that no pattern covers (nor is an ancestor of) is unchanged;
                       ancestors keep their kind, new ancestors are objects
@@ -40,7 +41,8 @@ TRUSTED_BASE = [
 ]
 ASSUMPTIONS = [
     "LibCorrect lib: applyPatch a (lib a b) = ok b -- checked on every generated pair; the pairs on which jsonpatch 1.33 itself breaks it are reported as findings (patch.jsonpatch-lib.*)",
-    "SpineObj ps d (hypothesis of the *_partial theorems): what a document has above a selectable pointer is an object; the share of generated cases inside it is reported as frag.theorem-hypotheses-hold / filter.theorem-hypotheses-hold, and a law broken inside it gets the signature *.inside-theorem-domain.*",
+    "hypotheses of the *_partial theorems: SpineObj ps old (what the device document has above a selectable pointer is an object) and SpineNoArr ps f / SpineNoArr ps d (the fragment / the filtered document has no array there: objects and scalars, strings included since 33969c0); the share of generated cases inside them is reported as frag.theorem-hypotheses-hold / filter.theorem-hypotheses-hold, and a law broken inside them gets the signature *.inside-theorem-domain.*",
+    "C13_resolve_sound_complete has no hypothesis besides unique keys and a non-root pattern: the resolve stream checks it on every generated (document, pattern), malformed documents included",
     "documents are JSON values without floats; dict keys are unique (J.WF)",
     "aliasing of fragment sub-objects inside the result (no deepcopy in apply_json_fragment) is not modelled; inputs are copied per call",
 ]
@@ -422,6 +424,22 @@ def _enc_op(o):
     return o
 
 
+def _real_chain(old, gens):
+    """RunGeneratorResult.new_json_fragment_files over one file; old None = the device has no such file"""
+    from annet.generators.result import RunGeneratorResult
+    from annet.types import GeneratorJSONFragmentResult
+
+    def run():
+        res = RunGeneratorResult()
+        for i, (f, acl) in enumerate(gens):
+            res.add_json_fragment(GeneratorJSONFragmentResult(
+                name="g%d" % i, tags=[], path="/etc/f.json", acl=list(acl), acl_safe=list(acl),
+                config=copy.deepcopy(f), reload="r%d" % i, perf=None, reload_prio=100))
+        files = res.new_json_fragment_files({"/etc/f.json": copy.deepcopy(old)})
+        return files["/etc/f.json"][0]
+    return _call(run)
+
+
 def impl(case):
     from annet.annlib import jsontools
     k = case["k"]
@@ -434,18 +452,7 @@ def impl(case):
             again = _call(lambda: jsontools.apply_json_fragment(r1, dec(case["f"]), list(case["acl"])))
         return dict(r=r, again=again)
     if k == "chain":
-        from annet.generators.result import RunGeneratorResult
-        from annet.types import GeneratorJSONFragmentResult
-
-        def run():
-            res = RunGeneratorResult()
-            for i, g in enumerate(case["gens"]):
-                res.add_json_fragment(GeneratorJSONFragmentResult(
-                    name="g%d" % i, tags=[], path="/etc/f.json", acl=list(g["acl"]), acl_safe=list(g["acl"]),
-                    config=dec(g["f"]), reload="r%d" % i, perf=None, reload_prio=100))
-            files = res.new_json_fragment_files({"/etc/f.json": dec(case["old"])})
-            return files["/etc/f.json"][0]
-        return dict(r=_call(run))
+        return dict(r=_real_chain(dec(case["old"]), [(dec(g["f"]), g["acl"]) for g in case["gens"]]))
     if k == "patch":
         try:
             ops = _patch_ops(case)
@@ -620,9 +627,27 @@ def spine_ok(parts, d):
     return all(spine_ok(parts[1:], v) for k, v in d.items() if _fnmatch.fnmatchcase(k, parts[0]))
 
 
-def in_theorem_domain(docs, acl):
+def noarr_ok(parts, d):
+    """Spec `noArrOk`: no array is met before the last part (objects are followed, a scalar ends the walk)"""
+    if not parts:
+        return True
+    if isinstance(d, list):
+        return False
+    if not isinstance(d, dict):
+        return True
+    return all(noarr_ok(parts[1:], v) for k, v in d.items() if _fnmatch.fnmatchcase(k, parts[0]))
+
+
+def frag_in_theorem_domain(old, f, acl):
+    """hypotheses of C13_fragment_{inside,outside,idempotent}_partial: SpineObj ps old, SpineNoArr ps f"""
     aps = [parse_pat(p) for p in acl]
-    return all(ps for ps in aps) and all(spine_ok(ps, d) for ps in aps for d in docs)
+    return all(ps for ps in aps) and all(spine_ok(ps, old) and noarr_ok(ps, f) for ps in aps)
+
+
+def filter_in_theorem_domain(d, texts):
+    """hypotheses of C13_filters_subdocument_partial: d is an object, SpineNoArr ps d"""
+    aps = [parse_pat(p) for p in texts]
+    return isinstance(d, dict) and all(ps for ps in aps) and all(noarr_ok(ps, d) for ps in aps)
 
 
 def frag_symptoms(old, f, acl, r_reply, again_reply):
@@ -650,7 +675,8 @@ def frag_symptoms(old, f, acl, r_reply, again_reply):
 
 
 def string_descents(acl_parts, docs):
-    """paths of string values that some pattern walks into (jsontools treats str as a Sequence)"""
+    """paths of string values below which some pattern continues with a part that matches a character
+    position: where the resolver of before commit 33969c0 (`isinstance(doc, Sequence)`) walked into a str"""
     hits = set()
     for ps in acl_parts:
         for d in docs:
@@ -669,15 +695,39 @@ def string_descents(acl_parts, docs):
     return hits
 
 
-def neutralise(d, hits, q=()):
-    """replace the strings the patterns walk into by a non-sequence scalar"""
-    if q in hits and isinstance(d, str):
-        return 424200 + len(d)
-    if isinstance(d, dict):
-        return {k: neutralise(v, hits, q + (k,)) for k, v in d.items()}
-    if isinstance(d, list):
-        return [neutralise(v, hits, q + (str(i),)) for i, v in enumerate(d)]
-    return d
+def neutralise(docs, hits):
+    """replace the strings the patterns continue below by non-sequence scalars -- injectively (distinct
+    strings get distinct numbers, the same string the same number in every document), so that every
+    comparison between the documents comes out as before and only `is it a Sequence` changes"""
+    strings = sorted({v for d in docs for q in hits for v in [_get(d, q)] if isinstance(v, str)})
+    code = {x: 424200 + i for i, x in enumerate(strings)}
+
+    def go(d, q=()):
+        if q in hits and isinstance(d, str):
+            return code[d]
+        if isinstance(d, dict):
+            return {k: go(v, q + (k,)) for k, v in d.items()}
+        if isinstance(d, list):
+            return [go(v, q + (str(i),)) for i, v in enumerate(d)]
+        return d
+    return [go(d) for d in docs]
+
+
+def _resolver_descends(patterns, docs):
+    """direct evidence of the defect repaired by 33969c0: the REAL _resolve_json_pointers returns a pointer
+    that passes through a string value of the document it was given"""
+    from annet.annlib import jsontools
+    for p in patterns:
+        for d in docs:
+            try:
+                ptrs = jsontools._resolve_json_pointers(p, copy.deepcopy(d))
+            except Exception:
+                continue
+            for ptr in ptrs:
+                parts = tuple(ptr.parts)
+                if any(isinstance(_get(d, parts[:j]), str) for j in range(len(parts))):
+                    return True
+    return False
 
 
 def _real_fragment(old, f, acl):
@@ -754,6 +804,10 @@ def _missing_below_array(old, f, acl):
     return False
 
 
+def _names(sym):
+    return [x[0] for x in sym]
+
+
 def oracle_frag(old, f, acl, r_reply, again_reply, label=""):
     aps = [parse_pat(p) for p in acl]
     if any(ps is None for ps in aps) or not isinstance(old, dict) or not isinstance(f, dict) or not obj_consistent(old, f):
@@ -761,24 +815,29 @@ def oracle_frag(old, f, acl, r_reply, again_reply, label=""):
     sym = frag_symptoms(old, f, acl, r_reply, again_reply)
     if not sym:
         return []
-    if in_theorem_domain([old, f], acl):
-        # the Lean theorems C13_fragment_*_partial cover this input: the model or the proof is wrong
-        return [dict(sig="frag.inside-theorem-domain." + sym[0][0],
-                     what=label + "law broken on an input that satisfies the hypotheses of C13_fragment_*_partial: %s" % sym[0][0])]
     out = []
+    # Regression test for the defect repaired by 33969c0.  The signature is assigned only if BOTH hold:
+    # the real resolver returns a pointer through a string value, and the symptoms change when exactly the
+    # strings the patterns continue below are swapped for non-sequence scalars.  Whatever is left after the
+    # swap (or everything, if the strings are not the cause) is classified on its own below.
     hits = string_descents(aps, [old, f])
     if hits:
-        old2, f2 = neutralise(old, hits), neutralise(f, hits)
+        old2, f2 = neutralise([old, f], hits)
         r2, again2 = _real_fragment(old2, f2, acl)
         sym2 = frag_symptoms(old2, f2, acl, r2, again2)
-        if [s[0] for s in sym2] != [s[0] for s in sym]:
+        if sym2 != sym and _resolver_descends(acl, [old, f]):      # symptoms compared with their details (paths)
             out.append(("frag.pattern-descends-into-string",
-                        "an acl pattern continues below a string value (%s): its characters are treated as children (%s)"
-                        % (sorted("/".join(h) for h in hits)[:3], ", ".join(s[0] for s in sym))))
-        if sym2:
-            out.extend(classify_frag(old2, f2, acl, sym2, r2))
-    else:
-        out.extend(classify_frag(old, f, acl, sym, r_reply))
+                        "REGRESSION of the repair 33969c0: an acl pattern continues below a string value (%s) and "
+                        "_resolve_json_pointers treats its characters as children (%s)"
+                        % (sorted("/".join(h) for h in hits)[:3], ", ".join(_names(sym)))))
+            old, f, sym, r_reply = old2, f2, sym2, r2
+    if sym:
+        if frag_in_theorem_domain(old, f, acl):
+            # the Lean theorems C13_fragment_*_partial cover this input: the model or the proof is wrong
+            out.append(("frag.inside-theorem-domain." + sym[0][0],
+                        "law broken on an input that satisfies the hypotheses of C13_fragment_*_partial: %s" % sym[0][0]))
+        else:
+            out.extend(classify_frag(old, f, acl, sym, r_reply))
     seen, res = set(), []
     for sig, what in out:
         if sig not in seen:
@@ -830,23 +889,24 @@ def oracle_filter(d, F, reply):
     s = filter_symptom(d, reply)
     if s is None:
         return []
-    if in_theorem_domain([d], texts):
-        return [dict(sig="filter.inside-theorem-domain." + s,
-                     what="law broken on an input that satisfies the hypotheses of C13_filters_subdocument_partial: %s" % s)]
+    out = []
     hits = string_descents(aps, [d])
-    if hits:
-        d2 = neutralise(d, hits)
+    if hits:      # regression test for 33969c0, as in oracle_frag
+        d2, = neutralise([d], hits)
         r2 = _call(lambda: jsontools.apply_acl_filters(copy.deepcopy(d2), list(F)))
         s2 = filter_symptom(d2, r2)
-        out = []
-        if s2 != s:
+        if s2 != s and _resolver_descends(texts, [d]):
             out.append(dict(sig="filter.pattern-descends-into-string",
-                            what="a filter continues below a string value (%s): %s" % (sorted("/".join(h) for h in hits)[:3], s)))
-        if s2 is None:
-            return out
-        d, s = d2, s2
-    else:
-        out = []
+                            what="REGRESSION of the repair 33969c0: a filter continues below a string value (%s) and "
+                                 "_resolve_json_pointers treats its characters as children: %s"
+                                 % (sorted("/".join(h) for h in hits)[:3], s)))
+            if s2 is None:
+                return out
+            d, s = d2, s2
+    if filter_in_theorem_domain(d, texts):
+        out.append(dict(sig="filter.inside-theorem-domain." + s,
+                        what="law broken on an input that satisfies the hypotheses of C13_filters_subdocument_partial: %s" % s))
+        return out
     ov = _overlap_into_nonobject(d, aps)
     if s == "raises-TypeError" and ov:
         out.append(dict(sig="filter.overlap-below-array-TypeError",
@@ -854,6 +914,28 @@ def oracle_filter(d, F, reply):
     else:
         out.append(dict(sig="filter." + s, what="apply_acl_filters: %s" % s))
     return out
+
+
+def oracle_resolve(d, pattern, reply):
+    """C13_resolve_sound_complete on the real resolver: exactly the selected pointers, in document order"""
+    ps = parse_pat(pattern)
+    if ps is None:
+        return []          # not a pointer with at least one part (model tie only)
+    if "err" in reply:
+        return [dict(sig="resolve.raises-" + reply["err"], what="_resolve_json_pointers(%r) raised" % pattern)]
+    want = [list(q) for q in sel(ps, d)]
+    got = reply["ok"]
+    if got == want:
+        return []
+    through = [q for q in got if any(isinstance(_get(d, tuple(q[:j])), str) for j in range(len(q)))]
+    if through:
+        return [dict(sig="resolve.pattern-descends-into-string",
+                     what="REGRESSION of the repair 33969c0: _resolve_json_pointers(%r) returns /%s, a pointer through a "
+                          "string value (its characters are treated as children)" % (pattern, "/".join(through[0])))]
+    return [dict(sig="resolve.differs",
+                 what="_resolve_json_pointers(%r) returns %d pointers, the document has %d selected ones (first difference: %s)"
+                      % (pattern, len(got), len(want), next((g for g in got if g not in want), None) or
+                         next((w for w in want if w not in got), None) or "order"))]
 
 
 def _lib_roundtrip(old, new):
@@ -910,50 +992,75 @@ def oracle_patch(case, res):
                  what="apply_patch(old, make_patch(old, new)) != new (%s) although jsonpatch's own round trip gives %s" % (sym, lib or "new"))]
 
 
+def chain_findings(old, gens, reply):
+    """(sig, what) list for one new_json_fragment_files observation; old is a dict"""
+    allacl = [p for _, a in gens for p in a]
+    aps = [parse_pat(p) for p in allacl]
+    if "err" in reply:
+        docs = [old] + [f for f, _ in gens]
+        if reply["err"] == "JsonPointerException" and any(
+                _missing_below_array(x, f, a) for x in docs for f, a in gens):
+            return [("frag.missing-parent-below-array", "missing object member below an array element")]
+        if reply["err"] in ("IndexError", "JsonPointerException") and any(
+                _array_grows(x, f, a) for x in docs for f, a in gens):
+            return [("frag.array-grows", "fragment array longer than the device's array")]
+        return [("chain.raises-" + reply["err"], "new_json_fragment_files raised")]
+    r = dec(reply["ok"])
+    out = []
+    # the last generator's region equals its fragment; nothing outside all regions changed
+    f, acl = gens[-1]
+    for name, det in frag_symptoms(old, f, acl, reply, None):
+        if name.startswith("inside"):
+            out.extend(classify_frag(old, f, acl, [(name, det)], reply))
+    o2 = []
+    check_outside(aps, old, r, (), o2)
+    out.extend(("chain." + n, "%s at /%s" % (n, "/".join(q))) for n, q in o2)
+    return out
+
+
+def oracle_chain(old, gens, reply):
+    real_old = old
+    old = {} if old is None else old
+    allacl = [p for _, a in gens for p in a]
+    aps = [parse_pat(p) for p in allacl]
+    if any(ps is None for ps in aps) or any(not obj_consistent(old, f) for f, _ in gens) or any(
+            not obj_consistent(f, g) for f, _ in gens for g, _ in gens):
+        return []
+    out = chain_findings(old, gens, reply)
+    if not out:
+        return []
+    docs = [old] + [f for f, _ in gens]
+    hits = string_descents(aps, docs)
+    if hits:      # regression test for 33969c0, as in oracle_frag
+        docs2 = neutralise(docs, hits)
+        gens2 = [(f2, a) for f2, (_, a) in zip(docs2[1:], gens)]
+        reply2 = _real_chain(None if real_old is None else docs2[0], gens2)
+        out2 = chain_findings(docs2[0], gens2, reply2)
+        if out2 != out and _resolver_descends(allacl, docs):
+            out = [("frag.pattern-descends-into-string",
+                    "REGRESSION of the repair 33969c0: a pattern continues below a string value (%s) and "
+                    "_resolve_json_pointers treats its characters as children (%s)"
+                    % (sorted("/".join(h) for h in hits)[:3], ", ".join(x[0] for x in out)))] + out2
+    seen, res_ = set(), []
+    for sig, what in out:
+        if sig not in seen:
+            seen.add(sig)
+            res_.append(dict(sig=sig, what="chain: " + what))
+    return res_
+
+
 def oracle(case, res):
     k = case["k"]
     if k == "frag":
         return oracle_frag(dec(case["old"]), dec(case["f"]), case["acl"], res["r"], res["again"])
     if k == "chain":
-        old = dec(case["old"])
-        old = {} if old is None else old
-        gens = [(dec(g["f"]), g["acl"]) for g in case["gens"]]
-        allacl = [p for _, a in gens for p in a]
-        aps = [parse_pat(p) for p in allacl]
-        if any(ps is None for ps in aps) or any(not obj_consistent(old, f) for f, _ in gens) or any(
-                not obj_consistent(f, g) for f, _ in gens for g, _ in gens):
-            return []
-        if string_descents(aps, [old] + [f for f, _ in gens]):
-            return []      # covered by the frag stream (needs the causal re-run)
-        if "err" in res["r"]:
-            docs = [old] + [f for f, _ in gens]
-            if res["r"]["err"] == "JsonPointerException" and any(
-                    _missing_below_array(x, f, a) for x in docs for f, a in gens):
-                return [dict(sig="frag.missing-parent-below-array", what="chain: missing object member below an array element")]
-            if res["r"]["err"] in ("IndexError", "JsonPointerException") and any(
-                    _array_grows(x, f, a) for x in docs for f, a in gens):
-                return [dict(sig="frag.array-grows", what="chain: fragment array longer than the device's array")]
-            return [dict(sig="chain.raises-" + res["r"]["err"], what="new_json_fragment_files raised")]
-        r = dec(res["r"]["ok"])
-        out = []
-        # the last generator's region equals its fragment; nothing outside all regions changed
-        f, acl = gens[-1]
-        for name, det in frag_symptoms(old, f, acl, res["r"], None):
-            if name.startswith("inside"):
-                out.extend(classify_frag(old, f, acl, [(name, det)], res["r"]))
-        o2 = []
-        check_outside(aps, old, r, (), o2)
-        out.extend(("chain." + n, "chain: %s at /%s" % (n, "/".join(q))) for n, q in o2)
-        seen, res_ = set(), []
-        for sig, what in out:
-            if sig not in seen:
-                seen.add(sig)
-                res_.append(dict(sig=sig, what="chain: " + what))
-        return res_
+        return oracle_chain(dec(case["old"]), [(dec(g["f"]), g["acl"]) for g in case["gens"]], res["r"])
     if k == "patch":
         return oracle_patch(case, res)
     if k == "filter":
         return oracle_filter(dec(case["d"]), case["F"], res["r"])
+    if k == "resolve":
+        return oracle_resolve(dec(case["d"]), case["pattern"], res["r"])
     return []
 
 
@@ -1002,12 +1109,20 @@ def stats(case, res):
             lab.append("frag.maybe-array-pattern")
         if "ok" in res["r"]:
             lab.append("frag.changed" if res["r"]["ok"] != case["old"] else "frag.unchanged")
-        if in_theorem_domain([dec(case["old"]), dec(case["f"])], case["acl"]):
+        if frag_in_theorem_domain(dec(case["old"]), dec(case["f"]), case["acl"]):
             lab.append("frag.theorem-hypotheses-hold")
+        if string_descents([ps for ps in map(parse_pat, case["acl"]) if ps], [dec(case["old"]), dec(case["f"])]):
+            lab.append("frag.string-below-pattern")
     if k == "filter":
         texts = [x.strip() for x in case["F"] if x.strip()]
-        if in_theorem_domain([dec(case["d"])], texts) and isinstance(dec(case["d"]), dict):
+        if filter_in_theorem_domain(dec(case["d"]), texts):
             lab.append("filter.theorem-hypotheses-hold")
+        if string_descents([ps for ps in map(parse_pat, texts) if ps], [dec(case["d"])]):
+            lab.append("filter.string-below-pattern")
+    if k == "resolve":
+        ps = parse_pat(case["pattern"])
+        if ps and string_descents([ps], [dec(case["d"])]):
+            lab.append("resolve.string-below-pattern")
     if k == "patch":
         lab.append("patch.perturb=" + case["perturb"])
         if isinstance(res["ops"], list):
